@@ -10,7 +10,10 @@ from vlib import basic
 
 LEVEL = 'proof'
 RULE = ('one case = one generated program P1 (random DEFtype ranges, OPTION BASE, scalars of all four types, 1-3 '
-        'dimensional arrays, strings as program literals / concatenations / CHR$ bytes / long STRING$ values, DEF FN, '
+        'dimensional arrays, strings of every provenance in random order - program literals (also the same literal twice), '
+        'concatenations, CHR$ bytes, long STRING$ values, empty strings computed at run time (MID$/LEFT$/RIGHT$ of nothing, '
+        '""+"", SPACE$(0), STRING$(0,..)) placed after non-empty ones, copies of other variables, FIELD variables, '
+        'unassigned array elements -, DEF FN, '
         'ON ERROR trap (optionally inside the handler), ON KEY trap, RND and READ positions, an open file, optional '
         'CLEAR ,n leaving only a few hundred bytes, garbage strings) stopped inside GOSUB+FOR+WHILE, followed by one of '
         'CLEAR [,mem][,stack] / NEW / RUN line / CHAIN [MERGE] file[,line][,ALL] with a random COMMON list (declared '
@@ -160,6 +163,18 @@ def gen_string(rng, near_limit):
     return mode, bytes(rng.choice(TEXT) for _ in range(n))
 
 
+EMPTY_EXPRS = ['MID$("ab",9)', 'LEFT$("abc",0)', 'RIGHT$("q",0)', '""+""', 'SPACE$(0)', 'STRING$(0,65)',
+               'MID$("xyz",4)', 'STRING$(0,"k")']
+
+
+def gen_empty_expr(rng, prev):
+    """an expression whose value is an empty string COMPUTED at run time: it is stored as a zero-length
+    pointer to the address of the string allocated just before it"""
+    if prev and rng.random() < 0.5:
+        return rng.choice(['LEFT$(%s,0)', 'RIGHT$(%s,0)', 'MID$(%s,1,0)', 'MID$(%s,2,0)']) % prev
+    return rng.choice(EMPTY_EXPRS)
+
+
 def gen_value(rng, sigil, near_limit):
     if sigil == '%':
         return None, rng.choice([1, -1, 7, 255, 256, 32767, -32768, rng.randrange(-32768, 32768)])
@@ -188,6 +203,7 @@ def gen_scenario(rng, kind=None):
     sc['base'] = rng.choice([None, None, 0, 1])
     used = set()
     scalars = []
+    fields = []
     for _ in range(rng.choice([0, 1, 3, 5, 8]) if not near_limit else rng.choice([3, 6, 10])):
         nm = gen_name(rng, used, hot)
         src = nm + ('' if nm[0] in hot and rng.random() < 0.6 else
@@ -196,7 +212,29 @@ def gen_scenario(rng, kind=None):
         if any(s['full'] == full for s in scalars):
             continue
         mode, val = gen_value(rng, full[-1], near_limit)
-        scalars.append({'src': src, 'full': full, 'mode': mode, 'val': val})
+        ent = {'src': src, 'full': full, 'mode': mode, 'val': val}
+        if full[-1] == '$':
+            strs = [x for x in scalars if x['full'][-1] == '$']
+            u = rng.random()
+            if u < 0.22:
+                # computed empty string, placed right after whatever was allocated before
+                ent.update(mode='cat', val='', expr=gen_empty_expr(rng, strs[-1]['src'] if strs else None))
+            elif u < 0.34 and strs:
+                # assigned from another variable: a program literal is shared (same pointer), anything else
+                # is copied into string space
+                o = rng.choice(strs)
+                ent.update(mode='lit' if o['mode'] == 'lit' else 'cat', val=o['val'], expr=o['src'])
+            elif u < 0.42 and src[-1] == '$' and len(fields) < 3:
+                # FIELD variable: points into the buffer of random file #2
+                w = rng.choice([1, 3, 8, 20])
+                text = bytes(rng.choice(TEXT) for _ in range(rng.choice([1, 2, w, w + 3])))
+                ent.update(mode='field', val=binascii.hexlify(text[:w].ljust(w, b' ')).decode(), width=w,
+                           expr=str_src('cat', text))
+                fields.append(ent)
+            elif u < 0.50 and strs and strs[-1]['mode'] == 'lit':
+                # the same literal text again (a second literal in the program)
+                ent.update(mode='lit', val=strs[-1]['val'])
+        scalars.append(ent)
     arrays = []
     for _ in range(rng.choice([0, 0, 1, 2, 3])):
         nm = gen_name(rng, used, hot)
@@ -212,13 +250,17 @@ def gen_scenario(rng, kind=None):
         flat = 1
         for d in dims:
             flat *= d + 1 - lo
-        cells = {}
+        cells, exprs = {}, {}
         for _ in range(rng.choice([0, 1, 2, flat, flat // 2 + 1])):
             i = rng.randrange(flat)
             mode, val = gen_value(rng, full[-1], False)
             cells[str(i)] = [mode, val]
+            if full[-1] == '$' and rng.random() < 0.25:
+                cells[str(i)] = ['cat', '']
+                exprs[str(i)] = gen_empty_expr(rng, None)
         implicit = nd == 1 and dims == [10] and rng.random() < 0.5
-        arrays.append({'src': src, 'full': full, 'dims': dims, 'cells': cells, 'implicit': implicit})
+        arrays.append({'src': src, 'full': full, 'dims': dims, 'cells': cells, 'implicit': implicit,
+                       'exprs': {k: v for k, v in exprs.items() if cells[k][1] == ''}})
     if kind == 'chain' and rng.random() < 0.4:
         # boundary: a string of the maximal length (or one less), usually made COMMON below
         nm = gen_name(rng, used) + '$'
@@ -226,6 +268,13 @@ def gen_scenario(rng, kind=None):
         content = bytes([rng.choice(b'xyzw')]) * (n - 2) + bytes(rng.choice(TEXT) for _ in range(2))
         scalars.insert(rng.randrange(len(scalars) + 1),
                        {'src': nm, 'full': nm, 'mode': 'long', 'val': binascii.hexlify(content).decode(), 'edge': True})
+    if kind == 'chain' and rng.random() < 0.5:
+        n1, n2 = gen_name(rng, used) + '$', gen_name(rng, used) + '$'
+        v1 = binascii.hexlify(bytes(rng.choice(TEXT) for _ in range(rng.choice([1, 2, 5, 30])))).decode()
+        pair = [{'src': n1, 'full': n1, 'mode': 'cat', 'val': v1, 'edge': True},
+                {'src': n2, 'full': n2, 'mode': 'cat', 'val': '', 'expr': gen_empty_expr(rng, n1), 'edge': True}]
+        k = rng.randrange(len(scalars) + 1)
+        scalars[k:k] = pair
     sc['scalars'], sc['arrays'] = scalars, arrays
     sc['fns'] = [gen_name(rng, used) + rng.choice(['', '', '%', '#']) for _ in range(rng.choice([0, 1, 2]))]
     if rng.random() < 0.25:
@@ -371,10 +420,19 @@ def build_p1(sc, clear_n, total, stack):
             add('DEF FN%s(ZP)="f"+"n"' % f)
         else:
             add('DEF FN%s(ZP)=ZP+%d' % (f, i + 1))
+    flds = [x for x in sc['scalars'] if x['mode'] == 'field']
+    if flds:
+        add('OPEN "R.DAT" FOR RANDOM AS 2 LEN=96')
+        add('FIELD #2,' + ','.join('%d AS %s' % (x['width'], x['src']) for x in flds))
     for s in sc['scalars']:
         sig = s['full'][-1]
-        add('%s=%s' % (s['src'], str_src(s['mode'], binascii.unhexlify(s['val'])) if sig == '$'
-                       else num_src(sig, s['val'])))
+        if s['mode'] == 'field':
+            add('LSET %s=%s' % (s['src'], s['expr']))
+        elif 'expr' in s:
+            add('%s=%s' % (s['src'], s['expr']))
+        else:
+            add('%s=%s' % (s['src'], str_src(s['mode'], binascii.unhexlify(s['val'])) if sig == '$'
+                           else num_src(sig, s['val'])))
     lo = sc['base'] or 0
     for a in sc['arrays']:
         sig = a['full'][-1]
@@ -386,7 +444,8 @@ def build_p1(sc, clear_n, total, stack):
                 idx.append(r % (d + 1 - lo) + lo)
                 r //= d + 1 - lo
             add('%s(%s)=%s' % (a['src'], ','.join(map(str, idx)),
-                               str_src(mode, binascii.unhexlify(val)) if sig == '$' else num_src(sig, val)))
+                               a.get('exprs', {}).get(i) or
+                               (str_src(mode, binascii.unhexlify(val)) if sig == '$' else num_src(sig, val))))
     if sc['garbage']:
         add(':'.join('ZG$=SPACE$(%d)' % (200 - i) for i in range(sc['garbage'])))
     if sc['rnd']:
@@ -431,6 +490,31 @@ def build_p2(sc):
 
 class HostExc(Exception):
     pass
+
+
+class _NoYield(object):
+    """`time` for pcbasic.basic.eventcycle in this single-threaded, headless harness: the three sleep(0)
+    per statement only yield the processor to an interface thread that does not exist here (on a busy
+    machine they cost more than the interpretation itself); real waits are kept."""
+
+    def __init__(self, real):
+        self._real = real
+
+    def sleep(self, t):
+        if t > 0:
+            self._real.sleep(t)
+
+    def __getattr__(self, name):
+        return getattr(self._real, name)
+
+
+def _fast_events():
+    try:
+        from pcbasic.basic import eventcycle
+        if not isinstance(eventcycle.time, _NoYield):
+            eventcycle.time = _NoYield(eventcycle.time)
+    except Exception:       # noqa  (a refactored event cycle just runs at its normal speed)
+        pass
 
 
 def ex(s, text):
@@ -483,6 +567,7 @@ def arr_size(full, dims, lo):
 
 def run_scenario(sc):
     """Returns dict(pre=..., obs=..., req=model request line, impl=canonical string)."""
+    _fast_events()
     d = tempfile.mkdtemp(prefix='c23_')
     try:
         s = basic.new_session(devices={'C': d}, current_device='C', max_memory=TOTAL0)
@@ -519,7 +604,8 @@ def _run(sc, s):
     need = sum(scal_size(x['full']) for x in sc['scalars']) + sum(scal_size(n) for n, _ in hv) \
         + sum(scal_size(complete(f, table)) for f in sc['fns']) \
         + sum(arr_size(a['full'], a['dims'], lo) for a in sc['arrays'])
-    strbytes = sum(len(binascii.unhexlify(x['val'])) for x in sc['scalars'] if x['full'][-1] == '$' and x['mode'] != 'lit') \
+    strbytes = sum(len(binascii.unhexlify(x['val'])) for x in sc['scalars']
+                   if x['full'][-1] == '$' and x['mode'] not in ('lit', 'field')) \
         + sum(len(binascii.unhexlify(v)) for a in sc['arrays'] if a['full'][-1] == '$'
               for m, v in a['cells'].values() if m != 'lit') + (200 if sc['garbage'] else 0)
     if sc['room'] is not None:
@@ -550,7 +636,9 @@ def _run(sc, s):
     top = total - stack - 2
     p1_nums = [int(l.split()[0]) for l in lines]
     # pre-state of the model
-    pre_sc = [(x['full'], x['full'][-1], val_bytes(x['full'][-1], x['val']), x['mode']) for x in sc['scalars']]
+    # (name, sigil, value, storage class: 'lit' = the bytes live outside string space - program text or FIELD buffer)
+    pre_sc = [(x['full'], x['full'][-1], val_bytes(x['full'][-1], x['val']),
+               'lit' if x['mode'] in ('lit', 'field') else x['mode']) for x in sc['scalars']]
     pre_sc += [(n, n[-1], v, 'cat') for n, v in hv]
     # DEF FN keeps a record among the scalars: first name byte + 0x80, a code address as value
     fn_recs = [chr(ord(complete(f, table)[0]) + 128) + complete(f, table)[1:] for f in sc['fns']]
@@ -728,15 +816,15 @@ def _run(sc, s):
     # default types (reading an undefined variable allocates nothing)
     dt = []
     for c in 'ABCDEFGHIJKLMNOPQRSTUVWXYZ':
-        o = ex(s, 'LOCATE 1,1:PRINT %sQ9+1/3' % c)
+        o = ex(s, 'LOCATE 1,1:PRINT %sQ.9+1/3' % c)
         if err_of(o) == 13:
             dt.append('$')
         elif b'.3333333432674408' in o:
             dt.append('#')
         elif b'.3333334' in o:
             # integer or single: needs an assignment; a temporary array is given back by ERASE
-            o = ex(s, 'LOCATE 1,1:%sQ9(1)=1/3:PRINT %sQ9(1)' % (c, c))
-            ex(s, 'ERASE %sQ9' % c)
+            o = ex(s, 'LOCATE 1,1:%sQ.9(1)=1/3:PRINT %sQ.9(1)' % (c, c))
+            ex(s, 'ERASE %sQ.9' % c)
             dt.append('%' if o.strip() == b'0' else '!' if b'.3333334' in o else '?')
         else:
             dt.append('?')
@@ -797,12 +885,15 @@ def model_request(sc, r):
         base = str(sc['base'])
     else:
         base = '0d' if sc['arrays'] else '-'
-    scw = ';'.join('%s=%s' % (hexname(n), ('L' if mode == 'lit' else 'S') + hx(v) if sig == '$' else hx(v))
+    def strw(v, mode):
+        # L: bytes outside string space; E: empty string computed at run time (shares the address of the
+        # string stored before it); S: in string space ('chr' with no bytes is a "" literal / unassigned)
+        return 'L' + hx(v) if mode == 'lit' else 'E' if (not v and mode != 'chr') else 'S' + hx(v)
+    scw = ';'.join('%s=%s' % (hexname(n), strw(v, mode) if sig == '$' else hx(v))
                    for n, sig, v, mode in r['pre_sc'])
     scw = ';'.join([x for x in [scw] if x] + ['%s=%s' % (hexname(n), '00' * SIGILS[n[-1]]) for n in r['fn_recs']]) or '-'
     arw = ';'.join('%s=%s=%s' % (hexname(n), '.'.join(map(str, dims)),
-                                 ','.join((('L' if mode == 'lit' else 'S') + hx(v)) if sig == '$' else hx(v)
-                                          for v, mode in cells))
+                                 ','.join(strw(v, mode) if sig == '$' else hx(v) for v, mode in cells))
                    for n, sig, dims, cells in r['pre_ar']) or '-'
     fns = ','.join(hexname(complete(f, r['table'])) for f in sc['fns']) or '-'
     interp = '%d,1,1,%d,%d,%d,%d,%d,%d,%d,%d' % (1 if sc['nest'] else 0, 9000 if sc['onerror'] else 0,
@@ -1086,7 +1177,7 @@ def evaluate(ctx, scenarios):
 
 def run(ctx):
     rng = ctx.rng
-    n = 120 if ctx.quick else 1500
+    n = 500 if ctx.quick else 5000
     scenarios = []
     # every operation kind in both modes with a rich state (boundary-dense part)
     for kind in ('clear', 'new', 'run', 'chain', 'chain', 'chain'):
